@@ -1646,11 +1646,13 @@ class SymbolicDim(_protocols.SymbolicDimProtocol, _display.PrettyPrintable):
             return SymbolicDim(None)
         # Build substitution map using the actual symbols present in the expression
         subs = {
-            symbol: bindings[str(symbol)]
+            symbol: sympy.sympify(bindings[str(symbol)])
             for symbol in self._expr.free_symbols
             if str(symbol) in bindings
         }
-        result = self._expr.subs(subs)
+        # Replace all bound symbols at once (xreplace): subs() substitutes one symbol after another and
+        # lets SymPy re-simplify partially bound floor()/Min()/Max() terms, which can change the value.
+        result = self._expr.xreplace(subs)
         if result.is_number and result.is_integer:
             return int(result)
         return SymbolicDim(result)
